@@ -98,6 +98,9 @@ def kkcOps (st : KkcState) (op : String) (arg : String) : Option (KkcState × St
     let w := parseCps (" ".intercalate (hd.drop 1))
     let n := (g 1).toNat?.getD 0
     some ({ st with freq := ((ctx, w), n) :: st.freq.filter fun p => !(p.1.1 = ctx ∧ Kkc.beqStr p.1.2 w) }, "ok")
+  | "kfreqrt" =>
+    -- the learned counts written and read back (what a restart does to them): the model's table is a value, nothing to do
+    some (st, "ok")
   | "klattice" =>
     let hd := arg.splitOn " "
     let ctx := parseCtx (hd.headD "")
